@@ -43,7 +43,9 @@ def spec_numeric(v):
 
 
 def ref_decode(s, in_attr):
-    """the standard's character-reference handling applied to text `s` (no other markup)"""
+    """the standard's character-reference handling applied to text `s` (no other markup), after the
+    input stream's newline normalisation"""
+    s = s.replace("\r\n", "\n").replace("\r", "\n")
     out = []
     i = 0
     n = len(s)
@@ -119,7 +121,7 @@ def mk(ctx, body, exact=0):
 
 
 def body_ok(ctx, body):
-    bad = {"data": "<\r\0", "rcdata": "<\r\0", "dq": '"\r\0', "sq": "'\r\0", "uq": " \t\n\x0c>\r\0"}[ctx]
+    bad = {"data": "<\0", "rcdata": "<\0", "dq": '"\0', "sq": "'\0", "uq": " \t\n\x0c>\r\0"}[ctx]
     return not any(ch in body for ch in bad)
 
 
@@ -166,15 +168,25 @@ def gen_cases(tier, rng):
                  "&", "&;", "&a", "&1", "&zz;", "&zz", "&am", "&amp", "&ampa", "&amp=", "&notit;", "&noti", "&notin;", "& amp;"]:
         for ctx in CONTEXTS:
             for exact in (0, 1):
-                for tail in ["", "z", " z"]:
+                for tail in ["", "z", " z", "\r\nz", "\rz", "\nz"]:
                     if body_ok(ctx, body + tail):
                         cases.append((mk(ctx, body + tail, exact=exact), "edge"))
+    # a reference cut by a chunk boundary at every position, and ended by EOF right after its last character
+    for body in ["&#65;", "&#x41;", "&#65", "&#x41", "&#1234567;", "&amp;", "&amp", "&notit;", "&not", "&AElig", "&zz;", "&#;", "&#x;"]:
+        for ctx in ("data", "dq", "uq"):
+            for tail in ("", "z"):
+                if not body_ok(ctx, body + tail):
+                    continue
+                whole = mk(ctx, body + tail)
+                s0 = tc.fields(whole)["chunks"][0]
+                for part in tc.partitions2(s0)[1:-1] + [tc.singletons(s0)]:
+                    cases.append((tc.with_chunks(whole, part), "chunked"))
     return cases
 
 
 def expected_of(line):
     f = tc.fields(line)
-    s = f["chunks"][0]
+    s = "".join(f["chunks"])
     st = f["state"]
     if s.startswith("<a b="):
         q = s[5]
@@ -219,6 +231,6 @@ def oracle(line, out):
 
 def nontrivial(line, out):
     f = tc.fields(line)
-    s = f["chunks"][0]
+    s = "".join(f["chunks"])
     kind, exp = expected_of(line)
     return out is not None and "&" in s
